@@ -15,7 +15,7 @@ import warnings
 import numpy as np
 
 from ..core import sut
-from .values import dec_index, dec_operand, index_vars, operand_vars, norm
+from .values import dec_index, dec_operand, dec_number, index_vars, operand_vars, norm
 
 nps = sut.load()
 RaggedArray = nps.RaggedArray
@@ -103,22 +103,22 @@ def _f_getitem(st, env):
 
 
 def _f_new_rows(st, env):
-    return RaggedArray([list(r) for r in st["rows"]], dtype=st["dtype"])
+    return RaggedArray([[dec_number(x) for x in r] for r in st["rows"]], dtype=st["dtype"])
 
 
 def _f_new_flat(st, env):
-    return RaggedArray(np.array(st["flat"], dtype=st["dtype"]), list(st["lengths"]))
+    return RaggedArray(np.array([dec_number(x) for x in st["flat"]], dtype=st["dtype"]), list(st["lengths"]))
 
 
 def _f_new_like(st, env):
     """RaggedArray(flat, shape) with the shape taken from a live array: its .shape tuple or its lengths."""
     src = env[st["src"]]
     shape = src.shape if st.get("how") == "tuple" else src.lengths
-    return RaggedArray(np.array(st["flat"], dtype=st["dtype"]), shape)
+    return RaggedArray(np.array([dec_number(x) for x in st["flat"]], dtype=st["dtype"]), shape)
 
 
 def _f_new_np(st, env):
-    m = np.array(st["matrix"], dtype=st["dtype"]).reshape(st["shape"])
+    m = np.array([dec_number(x) for x in st["matrix"]], dtype=st["dtype"]).reshape(st["shape"])
     return RaggedArray.from_numpy_array(m)
 
 
